@@ -101,3 +101,20 @@ pub assume_specification [u64::overflowing_sub] (a: u64, b: u64) -> (r: (u64, bo
 
 pub assume_specification [u64::wrapping_neg] (a: u64) -> (r: u64)
     ensures r as int == (if a == 0 { 0int } else { 0x1_0000_0000_0000_0000 - a as int });
+
+// a limb array that is zero except for limb 0
+pub proof fn lemma_lv_single(s: Seq<u64>, n: nat)
+    requires 1 <= n <= s.len(), forall|j: int| 1 <= j < n ==> s[j] == 0
+    ensures lv(s, n) == s[0] as nat
+    decreases n
+{
+    if n == 1 {
+        lemma2_to64();
+        assert(lv(s, 1) == lv(s, 0) + (s[0] as nat) * pow2(0));
+        assert(lv(s, 0) == 0);
+        assert((s[0] as nat) * 1 == s[0] as nat) by(nonlinear_arith);
+    } else {
+        lemma_lv_single(s, (n - 1) as nat);
+        assert((s[n - 1] as nat) * pow2(64 * (n - 1) as nat) == 0) by(nonlinear_arith) requires s[n - 1] == 0;
+    }
+}
